@@ -89,7 +89,7 @@ var c08DefectCatalogue = []Defect{
 	{Name: "noa-abs", Param: "1601-01-01T00:00:00Z"}, {Name: "noa-abs", Param: "1500-06-15T12:00:00Z"}, {Name: "noa-abs", Param: "0001-01-01T00:00:00Z"}, {Name: "noa-abs", Param: "1677-09-21T00:12:43Z"}, {Name: "noa-abs", Param: "1970-01-01T00:00:00Z"},
 	{Name: "nb-future-form", Param: "1800/0/offsetneg"}, {Name: "noa-past-form", Param: "1800/0/offset2"},
 	{Name: "nb-garbage", Param: "now"}, {Name: "nb-garbage", Param: "dateonly"}, {Name: "nb-garbage", Param: "month13"}, {Name: "noa-garbage", Param: "now"}, {Name: "noa-garbage", Param: "space"},
-	{Name: "unknown-encoding", Param: "urn:example:encoding"}, {Name: "unknown-encoding", Param: "urn:oasis:names:tc:SAML:2.0:bindings:URL-Encoding:deflate"}, {Name: "unknown-encoding", Param: spsim.EncodingDeflate + " "},
+	{Name: "unknown-encoding", Param: "urn:example:encoding"}, {Name: "unknown-encoding", Param: "urn:oasis:names:tc:SAML:2.0:bindings:URL-Encoding:deflate"}, {Name: "unknown-encoding", Param: spsim.EncodingDeflate + " "}, {Name: "unknown-encoding", Param: "%"}, {Name: "unknown-encoding", Param: "%zz"}, {Name: "unknown-encoding", Param: spsim.EncodingDeflate + "%"}, {Name: "unknown-encoding", Param: "urn%3Aoasis%3Anames%3Atc%3ASAML%3A2.0%3Abindings%3AURL-Encoding%3ADEFLATE"},
 	{Name: "sigalg-without-signature"}, {Name: "empty-samlrequest"}, {Name: "missing-samlrequest"},
 }
 
